@@ -19,8 +19,8 @@ BASE = os.path.join(ROOT, "keys", "hab")
 # tree -> (kind, SRK size/curve, leaf size/curve per SRK index 1..4, srk_is_ca)
 TREES = {
     "rsa2048": ("rsa", 2048, (2048, 2048, 2048, 2048), True),
-    "rsa3072": ("rsa", 3072, (3072, 3072, 3072, 3072), True),
-    "rsa4096": ("rsa", 4096, (4096, 2048, 4096, 2048), True),
+    "rsa3072": ("rsa", 3072, (2048, 3072, 2048, 2048), True),
+    "rsa4096": ("rsa", 4096, (2048, 2048, 2048, 4096), True),
     "p256": ("ecc", "secp256r1", ("secp256r1",) * 4, True),
     "p384": ("ecc", "secp384r1", ("secp384r1",) * 4, True),
     "p521": ("ecc", "secp521r1", ("secp521r1",) * 4, True),
